@@ -971,5 +971,98 @@ def codeScanGuard : CKind → Bool := fun _ => true
 /-- "tags live on struct fields only": the guard the code does NOT have -/
 def structOnlyGuard : CKind → Bool := fun k => k == .struct
 
+/-! ## 9. ninth round: who else takes part in the start of an App that is closed; the factory driven directly
+
+    (a) `closeq`: user post-processors. `ResolveAfterInstantiation`
+        (container/factory/post_processor_registration_delegate.go:213-231) walks over ALL component post-processors of the
+        factory, in their sorted order; for a processor that is an InstantiationAwareComponentPostProcessor it asks
+        `PostProcessAfterInstantiation` and applies that processor's `PostProcessProperties` iff the answer is true — then it
+        GOES ON with the next processor, whatever the answer was. `App.CloserComponents` is filled from the candidates the
+        built-in dependency processor (`dependencyAwarePostProcessors.PostProcessProperties`, id 0 here) finds while the App
+        component is populated. `resolveAfter ps` = the processors whose `PostProcessProperties` is applied to a component.
+    (b) `closeh`: other components with an injection point of the closer interface type. The dependency processor gives every
+        injection point candidates of its OWN: `dm := Registry.GetMetas(option)` builds a new slice per call
+        (component_definition_registry.go:27-35) and `prop.Injects = append(prop.Injects, dm...)`
+        (dependency_aware_post_processors.go:55-56); `fas.Filter` (util/fas/operation.go:56-64) collects into
+        `make([]T, 0, len(x))`, a new backing array. So what a holder keeps of its candidates (qualifier, the single-valued
+        choice) never touches what the App is offered: the enumeration of ALL registered closers. `compactFrom` is the OTHER
+        filter — `result := x[:0]`, writing into the array it reads — and `sharedCandidates` what the App would be offered
+        from ONE candidate array per type that every holder before it compacts.
+    (c) `fdirect`: `factory.Default()` (container/factory/factory.go:25-33) builds the definition registry and stores it in
+        the field BEFORE the factory is handed out; `GetDefinitionRegistry()` (87-89) is one read of that field. The parallel
+        scan evaluates the getter in every goroutine (post_processor_registration_delegate.go:76): g reads of a field that
+        nobody writes — the calls `load k` of the map model of section 3 on a state in which `k` is present. Every goroutine
+        then stores the definition of its component in the registry it was handed (`scanStores`). A getter that CREATES the
+        registry when the field is nil is the check-then-act `[Load, f, Store]` (`oldProgs`) on that field. -/
+
+/-- a component post-processor as the loop of ResolveAfterInstantiation sees it -/
+structure IProc where
+  id : Nat
+  aware : Bool         -- it is an InstantiationAwareComponentPostProcessor
+  populate : Bool      -- what its PostProcessAfterInstantiation answers
+  deriving DecidableEq, Repr
+
+/-- the processors whose PostProcessProperties is applied, in order: the loop of the code -/
+def resolveAfter : List IProc → List Nat
+  | [] => []
+  | p :: rest => if p.aware && p.populate then p.id :: resolveAfter rest else resolveAfter rest
+
+/-- the loop that ENDS at the first processor that answers false (the loop the code does NOT have) -/
+def resolveAfterBreak : List IProc → List Nat
+  | [] => []
+  | p :: rest =>
+    if !p.aware then resolveAfterBreak rest
+    else if p.populate then p.id :: resolveAfterBreak rest
+    else []
+
+/-- the built-in dependency processor: Ordered 2, answers true -/
+def depProc : IProc := ⟨0, true, true⟩
+
+/-- the App is offered its closers iff the dependency processor's PostProcessProperties is applied to it -/
+def collectsClosers (applied : List Nat) : Bool := applied.contains 0
+
+/-- the in-place filter `result := x[:0]; for _, i := range x { if f(i) { result = append(result, i) } }` on the backing
+    array `arr`: element i is READ from the array as it is when the loop gets there, the w-th accepted element is WRITTEN to
+    slot w. Returns the array afterwards (fuel = len(x)). -/
+def compactFrom (f : Nat → Bool) : Nat → List Nat → Nat → Nat → List Nat
+  | 0, arr, _, _ => arr
+  | fuel + 1, arr, w, i =>
+    match arr[i]? with
+    | none => arr
+    | some x => if f x then compactFrom f fuel (arr.set w x) (w + 1) (i + 1) else compactFrom f fuel arr w (i + 1)
+
+def filterInPlace (f : Nat → Bool) (arr : List Nat) : List Nat := compactFrom f arr.length arr 0 0
+
+/-- what the App is offered when every injection point has candidates of its own (the code): the enumeration of the
+    registered closers, whatever the holders populated before it kept of THEIR candidates -/
+def ownCandidates (enum : List Nat) (_holders : List (Nat → Bool)) : List Nat := enum
+
+/-- what the App would be offered from ONE candidate array per type, read with its original length, after every holder
+    before it has filtered that array in place -/
+def sharedCandidates (enum : List Nat) (holders : List (Nat → Bool)) : List Nat :=
+  holders.foldl (fun arr f => filterInPlace f arr) enum
+
+/-- the scanning goroutines of a start: goroutine a stores the definition of component `a.2` in the registry `a.1` it was
+    handed; `regs r` = the names defined in registry r -/
+def scanStores (regs : Nat → List Nat) (acts : List (Nat × Nat)) : Nat → List Nat :=
+  acts.foldl (fun rs a => upd rs a.1 (a.2 :: rs a.1)) regs
+
+/-- the registry field of the factory is key 1; `Default()` stored registry 7 there -/
+def fieldAfterDefault : MapSt := fun k => if k = 1 then some 7 else none
+
+def getterQueues (g : Nat) : Nat → List Op := fun t => if t < g then [Op.load 1] else []
+
+/-- (registry handed to goroutine t, t) for the completed getter calls of a run -/
+def handedOf (h : List (Nat × Op × Res)) : List (Nat × Nat) :=
+  h.filterMap fun e => match e.2.2 with | .got (some r) _ => some (r, e.1) | _ => none
+
+/-- `fdirect`: g goroutines evaluate the getter (all of them invoke, then all of them read), then store their definitions:
+    (components without a definition in the registry the factory keeps, goroutines handed another registry than that one) -/
+def fdirectObs (g : Nat) : Nat × Nat :=
+  let s := run factProgs (Sys.start fieldAfterDefault (getterQueues g)) (List.range g ++ List.range g ++ List.range g)
+  let handed := handedOf s.hist
+  let kept := (s.map 1).getD 0
+  let regs := scanStores (fun _ => []) handed
+  (((List.range g).filter fun t => !(regs kept).contains t).length, (handed.filter fun a => a.1 != kept).length)
 
 end Ioc.Conc
